@@ -19,6 +19,7 @@ BRIDGES = {   # kind -> (class, generated module, bridge module)
     "fifo": ("fifo_cache", "GenFifo", "FifoBridge"),
     "rr": ("rr_cache", "GenRr", "RrBridge"),
     "lfu": ("lfu_cache", "GenLfu", "LfuBridge"),
+    "lfuda": ("lfuda_cache", "GenLfuda", "LfudaBridge"),
     "tlru": ("tlru_cache", "GenTlru", "TlruBridge"),
     "ut_map": ("ut_map", "GenUtMap", "UtMapBridge"),
     "ut_set": ("ut_set", "GenUtSet", "UtSetBridge"),
